@@ -5,8 +5,6 @@
   structural invariant `WFS` by the three elementary changes every operation is made of:
   swapping two live heap entries, deleting one (tombstone), inserting one.
 -/
-import Mathlib.Data.List.Nodup
-import Mathlib.Data.List.Perm.Subperm
 import CimbaModel.HashHeap.RefineBasic
 
 namespace CimbaModel.HashHeap
@@ -231,26 +229,52 @@ theorem findSlot_spec (hs : Array HSlot) (e key : Nat) (hn : hs.size = 2 ^ (e + 
 
 /-! ### pigeonhole: the map always has a free slot -/
 
+/-- an injection of `[0, n)` into `[1, c]` forces `n ≤ c` -/
+theorem pigeonhole : ∀ (c n : Nat) (f : Nat → Nat), (∀ j, j < n → 1 ≤ f j ∧ f j ≤ c) →
+    (∀ i j, i < n → j < n → f i = f j → i = j) → n ≤ c := by
+  intro c
+  induction c with
+  | zero =>
+    intro n f hr _
+    cases n with
+    | zero => exact Nat.le_refl _
+    | succ m => have := hr 0 (Nat.succ_pos _); omega
+  | succ c ih =>
+    intro n f hr hinj
+    cases n with
+    | zero => exact Nat.zero_le _
+    | succ m =>
+      have hm : m ≤ c := by
+        apply ih m (fun j => if f j = c + 1 then f m else f j)
+        · intro j hj
+          have h1 := hr j (by omega)
+          have h2 := hr m (by omega)
+          by_cases h : f j = c + 1
+          · have : f m ≠ c + 1 := by
+              intro h'
+              have := hinj j m (by omega) (by omega) (by rw [h, h'])
+              omega
+            simp only [h, if_true]; omega
+          · simp only [h, if_false]; omega
+        · intro i j hi hj
+          by_cases h1 : f i = c + 1 <;> by_cases h2 : f j = c + 1 <;> simp only [h1, h2, if_true, if_false]
+          · intro _; exact hinj i j (by omega) (by omega) (by rw [h1, h2])
+          · intro h; have := hinj m j (by omega) (by omega) h; omega
+          · intro h; have := hinj i m (by omega) (by omega) h; omega
+          · intro h; exact hinj i j (by omega) (by omega) h
+      omega
+
 theorem exists_free_slot (S : Nat → HSlot) (g : Nat → Nat) (n c : Nat) (hc : c < n)
     (hinj : ∀ j, j < n → (S j).idx ≠ 0 → 1 ≤ (S j).idx ∧ (S j).idx ≤ c ∧ g (S j).idx = j) :
     ∃ j, j < n ∧ (S j).idx = 0 := by
   apply Classical.byContradiction
   intro hno
   have hocc : ∀ j, j < n → (S j).idx ≠ 0 := fun j hj h0 => hno ⟨j, hj, h0⟩
-  have hnd : ((List.range n).map fun j => (S j).idx).Nodup := by
-    apply List.Nodup.map_on _ List.nodup_range
-    intro x hx y hy hxy
-    have hx := List.mem_range.mp hx
-    have hy := List.mem_range.mp hy
-    rw [← (hinj x hx (hocc x hx)).2.2, ← (hinj y hy (hocc y hy)).2.2, hxy]
-  have hsub : ((List.range n).map fun j => (S j).idx) ⊆ List.range' 1 c := by
-    intro x hx
-    obtain ⟨j, hj, rfl⟩ := List.mem_map.mp hx
-    have hj := List.mem_range.mp hj
-    have := hinj j hj (hocc j hj)
-    rw [List.mem_range'_1]; omega
-  have := (List.subperm_of_subset hnd hsub).length_le
-  simp at this
+  have := pigeonhole c n (fun j => (S j).idx)
+    (fun j hj => ⟨(hinj j hj (hocc j hj)).1, (hinj j hj (hocc j hj)).2.1⟩)
+    (fun i j hi hj h => by
+      rw [← (hinj i hi (hocc i hi)).2.2, ← (hinj j hj (hocc j hj)).2.2]
+      exact congrArg g h)
   omega
 
 theorem WFS.exists_free {T : Nat → HTag} {S : Nat → HSlot} {L : Nat → Prop} {e : Nat} (w : WFS T S L e)
